@@ -88,3 +88,115 @@ impl Filter for ScriptFilter {
         }
     }
 }
+
+// ---------------------------------------------------------------------------------------------
+// A harness appender kind for configuration *files*: `kind: capture`, `tag: <string>`.
+// Registered through the public `Deserializers::insert`; every construction and every delivery is
+// recorded in a process-wide registry.
+
+#[derive(Debug, Default)]
+pub struct Registry {
+    /// tags in construction order (one entry per constructed appender object)
+    pub built: Vec<String>,
+    /// (tag, construction serial, message)
+    pub delivered: Vec<(String, usize, String)>,
+}
+
+pub static REGISTRY: once_cell::sync::Lazy<Mutex<Registry>> = once_cell::sync::Lazy::new(|| Mutex::new(Registry::default()));
+
+#[derive(Debug)]
+pub struct CaptureAppender {
+    pub tag: String,
+    pub serial: usize,
+}
+
+impl Append for CaptureAppender {
+    fn append(&self, record: &Record) -> anyhow::Result<()> {
+        REGISTRY
+            .lock()
+            .unwrap()
+            .delivered
+            .push((self.tag.clone(), self.serial, format!("{}", record.args())));
+        Ok(())
+    }
+    fn flush(&self) {}
+}
+
+#[derive(Debug, serde::Deserialize)]
+#[serde(deny_unknown_fields)]
+pub struct CaptureConfig {
+    pub tag: String,
+}
+
+pub struct CaptureDeserializer;
+
+impl log4rs::config::Deserialize for CaptureDeserializer {
+    type Trait = dyn Append;
+    type Config = CaptureConfig;
+    fn deserialize(&self, config: CaptureConfig, _: &log4rs::config::Deserializers) -> anyhow::Result<Box<dyn Append>> {
+        let mut r = REGISTRY.lock().unwrap();
+        let serial = r.built.len();
+        r.built.push(config.tag.clone());
+        Ok(Box::new(CaptureAppender { tag: config.tag, serial }))
+    }
+}
+
+pub fn deserializers_with_capture() -> log4rs::config::Deserializers {
+    let mut d = log4rs::config::Deserializers::default();
+    d.insert("capture", CaptureDeserializer);
+    d
+}
+
+/// takes and clears the deliveries recorded so far
+pub fn take_deliveries() -> Vec<(String, usize, String)> {
+    std::mem::take(&mut REGISTRY.lock().unwrap().delivered)
+}
+
+// ---------------------------------------------------------------------------------------------
+// A capturing `encode::Write`: records bytes and style requests; optionally accepts at most
+// `limit` bytes per `write` call (short writes are a legal answer of any io::Write).
+
+#[derive(Clone, Debug, PartialEq, Eq)]
+pub struct StyleEv {
+    /// byte offset in `buf` at which the style was requested
+    pub at: usize,
+    pub text: Option<log4rs::encode::Color>,
+    pub background: Option<log4rs::encode::Color>,
+    pub intense: Option<bool>,
+}
+
+#[derive(Default, Debug)]
+pub struct Sink {
+    pub buf: Vec<u8>,
+    pub styles: Vec<StyleEv>,
+    pub limit: Option<usize>,
+    pub writes: usize,
+}
+
+impl Sink {
+    pub fn new(limit: Option<usize>) -> Sink {
+        Sink { buf: vec![], styles: vec![], limit, writes: 0 }
+    }
+}
+
+impl std::io::Write for Sink {
+    fn write(&mut self, b: &[u8]) -> std::io::Result<usize> {
+        self.writes += 1;
+        let n = match self.limit {
+            Some(l) => b.len().min(l),
+            None => b.len(),
+        };
+        self.buf.extend_from_slice(&b[..n]);
+        Ok(n)
+    }
+    fn flush(&mut self) -> std::io::Result<()> {
+        Ok(())
+    }
+}
+
+impl log4rs::encode::Write for Sink {
+    fn set_style(&mut self, style: &log4rs::encode::Style) -> std::io::Result<()> {
+        self.styles.push(StyleEv { at: self.buf.len(), text: style.text, background: style.background, intense: style.intense });
+        Ok(())
+    }
+}
